@@ -181,7 +181,7 @@ OBLIGATIONS = [
     Ob('match_sets', match_sets, sym=dict(nk=R(0, 2), nca=R(0, 2), nrev=R(0, 2)), timeout=90,
        functions=[C.SSHConnection._match_known_hosts], bounds='0..2 keys in each of the three result lists'),
     Ob('known_hosts_lookup', kh_lookup,
-       sym=dict(m0=R(0, 2), f0=R(0, 15), k0=R(0, 2), m1=R(0, 2), f1=R(0, 15), k1=R(0, 2), hi=R(0, 3), ai=R(0, 2), port=B),
+       sym=dict(m0=R(0, 2), f0=R(0, 15), k0=R(0, 2), m1=R(0, 2), f1=R(0, 15), k1=R(0, 2), hi=R(0, 3), ai=R(0, 2), port=B, prior=R(0, 2)),
        shards=dict(f0=[0, 6, 7, 11, 14], k0=[0], k1=[1], m1=[0], m0=[0, 1], ai=[0, 1]),
        thorough_shards=dict(f0=list(range(16)), k0=[0], k1=[1], m0=[0, 1, 2]),
        timeout=200, thorough_timeout=600,
